@@ -122,9 +122,11 @@ func (fr *frame) evalConversion(p *Path, e *ast.CallExpr, to types.Type) []PV {
 			// float -> int: exact (truncation) for finite values within the int64 range; outside that range Go
 			// yields an implementation-dependent value without panicking -> unspecified (fresh) value.
 			inr := Term{S: fmt.Sprintf("(and (not (fp.isNaN %s)) (not (fp.isInfinite %s)) (fp.lt %s ((_ to_fp 11 53) RNE 9223372036854775808.0)) (fp.gt %s ((_ to_fp 11 53) RNE (- 9223372036854775809.0))))", t.S, t.S, t.S, t.S), Sort: SBool}
-			conv := Term{S: "(sbv2int ((_ fp.to_sbv 64) RTZ " + t.S + "))", Sort: SInt}
-			un := c.fresh("conv_unspec", SInt)
-			out = append(out, PV{pv.P, tIte(inr, conv, un)})
+			// kept on the bit-vector level: (sbv2int <bv>) so that % and comparisons with constants stay in QF_BV+FP
+			c.nfresh++
+			un := fmt.Sprintf("conv_unspec!%d", c.nfresh)
+			c.declare(un, "(_ BitVec 64)")
+			out = append(out, PV{pv.P, Term{S: "(sbv2int (ite " + inr.S + " ((_ fp.to_sbv 64) RTZ " + t.S + ") " + un + "))", Sort: SInt}})
 		case t.Sort == SInt && toS == SF64:
 			if n, ok := t.C.(int64); ok {
 				out = append(out, PV{pv.P, Term{S: fmt.Sprintf("((_ to_fp 11 53) RNE %d.0)", n), Sort: SF64}})
